@@ -33,7 +33,7 @@ type c18Case struct {
 }
 
 var c18P2Cfgs = []scen.P2Config{{Sizes: []int{11, 6}, Slice: 4, Blocks: 3, Class: "uniq"}, {Sizes: []int{11, 6, 9}, Slice: 4, Blocks: 7, Class: "uniq"},
-	{Sizes: []int{11, 6, 5}, Slice: 4, Blocks: 3, Class: "uniq", Names: []string{"sub/f0", "f1", "sub/deep/f2"}}} // world 2: protected files in sub-directories (any per-directory I/O is a further place to swallow a fault)
+														{Sizes: []int{11, 6, 5}, Slice: 4, Blocks: 3, Class: "uniq", Names: []string{"sub/f0", "f1", "sub/deep/f2"}}} // world 2: protected files in sub-directories (any per-directory I/O is a further place to swallow a fault)
 var c18P1Cfgs = []scen.P1Config{{Sizes: []int{7, 5, 0}, Volumes: 2}, {Sizes: []int{7, 0, 3, 8}, Volumes: 3}} // each world protects a zero-length file (a failed read and an empty file both yield no bytes)
 
 type c18World struct {
